@@ -520,9 +520,53 @@ pub fn run_one(case: &C14Case) -> Result<(C14Stats, Option<Viol>), RunErr> {
                 out.done = true;
                 return Ok(());
             }
-            // the new worker is gated like any worker: pump it until the ack or until it is gone
-            let acked = pump(None, &|| trace::ack_state(fid2).is_some(), 2.0);
+            // The new worker is gated like any worker: pump it until the ack. No clock decides the verdict: "never
+            // acknowledged" is concluded only from a state that cannot change any more - the new instance's worker thread
+            // has ended, or it sleeps outside the gate with requests unprocessed and nothing moves (see Settle::Stuck).
+            // Running out of time without either is inconclusive.
+            let old = out.old_tid;
+            let mut gone = false;
+            let acked = pump(None, &|| trace::ack_state(fid2).is_some(), 0.3) || {
+                let t0 = util::now_s();
+                let mut res = false;
+                let mut still = 0u32;
+                let mut last_sig = (0u64, 0u64, 0usize);
+                loop {
+                    if pump(None, &|| trace::ack_state(fid2).is_some(), 0.1) {
+                        res = true;
+                        break;
+                    }
+                    let new_workers: Vec<i32> = trace::gate_lanes(Role::Worker).into_iter().map(|l| l.0).filter(|t| Some(*t) != old).collect();
+                    if !new_workers.is_empty() && new_workers.iter().all(|t| !trace::thread_alive(*t)) {
+                        gone = true;
+                        break;
+                    }
+                    let (s, d) = ns.seq();
+                    let sig = (s, d, trace::ev_count());
+                    let asleep = !new_workers.is_empty()
+                        && new_workers.iter().all(|t| std::fs::read_to_string(format!("/proc/self/task/{}/stat", t)).ok().and_then(|x| x.rsplit(") ").next().and_then(|r| r.chars().next())) == Some('S'))
+                        && !trace::gate_all_lanes().iter().any(|(_, w, _)| w.is_some());
+                    if asleep && sig == last_sig && d < s {
+                        still += 1;
+                        if still >= 10 {
+                            gone = true;
+                            break;
+                        }
+                    } else {
+                        still = 0;
+                        last_sig = sig;
+                    }
+                    if util::now_s() - t0 > 60.0 {
+                        break;
+                    }
+                }
+                res
+            };
             let (sent, done) = ns.seq();
+            if !acked && !gone {
+                ns.close_released();
+                return Err(RunErr::Inconclusive("new instance: no acknowledgement within 60 s although its worker is alive and moving".into()));
+            }
             if !acked || trace::ack_state(fid2) != Some(trace::AckState::Ok) {
                 out.viol = Some(v(
                     case,
